@@ -33,6 +33,8 @@ def observe(idnt, kw, meta):
     if "params_fitted" in fp:
         pf = fp["params_fitted"]
         pk = copy.deepcopy(pf)
+        # (the limits are in measured units: lift them before moving the value to corrected units)
+        pk["contact_point"].set(min=-np.inf, max=np.inf)
         pk["contact_point"].set(value=pf["contact_point"].value * obs["k"])
         md = model.models_available[fp["model_key"]]
         obs["pk"] = pk
@@ -57,7 +59,13 @@ def oracle(ctx, obs, kw, meta):
     if not np.all(np.isnan(fit[~seg])) or not np.all(np.isnan(res[~seg])):
         ctx.violation("columns-not-nan-outside-segment", "fit columns hold numbers outside the segment", rep)
     m = obs["mvals"]
-    if np.any(np.isnan(fit[seg])) or not np.allclose(fit[seg], m[seg], rtol=1e-12, atol=0):
+    # the model value is baseline + contact force: where the two cancel, the rounding error is relative to the
+    # terms, not to their sum
+    b0 = abs(float(fp["params_fitted"]["baseline"].value)) if "baseline" in fp["params_fitted"] else 0.0
+    # ... and just beyond the contact point the depth (k*cp - k*x) is a difference of nearly equal numbers: the
+    # contact point reported as cp'/k and multiplied by k again may differ from cp' by an ulp
+    mag = np.abs(m) + 2 * b0 + float(np.nanmax(np.abs(m[seg]))) * 1e-3
+    if np.any(np.isnan(fit[seg])) or np.any(np.abs(fit[seg] - m[seg]) > 1e-12 * np.abs(m[seg]) + 64 * EPS * mag[seg]):
         ctx.violation("fit-column-not-model:" + tag, "the 'fit' column is not the model evaluated with the "
                       "reported parameters on the fitted segment", rep)
     k = obs["k"]
@@ -65,7 +73,7 @@ def oracle(ctx, obs, kw, meta):
     cpk = obs["pk"]["contact_point"].value
     w = np.minimum(np.abs(obs["x"] * k - cpk) / wd, 1.0) if wd else np.ones_like(obs["x"])
     exp_res = (obs["y"] - m) * w
-    scale = np.abs(obs["y"]) + np.abs(m) + 1e-300
+    scale = np.abs(obs["y"]) + mag + 1e-300
     if np.any(np.abs(res[seg] - exp_res[seg]) > 64 * EPS * scale[seg]):
         ctx.violation("residual-column:" + tag, "the 'fit residuals' column is not (data - fit) x "
                       "contact-point weights", rep)
@@ -86,8 +94,9 @@ def oracle(ctx, obs, kw, meta):
                 ctx.violation(f"fixed-parameter-changed:{n}", f"fixed parameter {n} changed from "
                               f"{p0[n].value!r} to {pf[n].value!r}", rep)
         lo, hi = pf[n].min, pf[n].max
-        if n == "contact_point":
-            continue
+        if n == "contact_point" and (lo, hi) != (p0[n].min, p0[n].max):
+            ctx.violation("contact-point-limits-changed", f"reported contact point carries the limits [{lo}, {hi}], "
+                          f"the caller gave [{p0[n].min}, {p0[n].max}]", rep)
         if not (lo <= pf[n].value <= hi):
             ctx.violation(f"out-of-bounds:{n}", f"{n}={pf[n].value!r} outside [{lo}, {hi}]", rep)
     if "baseline" in pf and pf["baseline"].expr == "E*1e-15":
@@ -130,9 +139,15 @@ def compare(ctx, obs, out, meta):
     if not obs["success"]:
         return
     ok = ~np.isnan(mfit)
-    if not np.allclose(mfit[ok], obs["fit"][ok], rtol=1e-12, atol=0):
+    pf = obs["fp"]["params_fitted"]
+    b0 = abs(float(pf["baseline"].value)) if "baseline" in pf else 0.0
+    # baseline and contact force may cancel in the model value; depth just beyond the contact point is a
+    # difference of nearly equal numbers
+    mag = np.abs(obs["mvals"]) + 2 * b0 + float(np.nanmax(np.abs(obs["mvals"][ok]))) * 1e-3 if np.any(ok) else \
+        np.abs(obs["mvals"]) + 2 * b0
+    if np.any(np.abs(mfit[ok] - obs["fit"][ok]) > 1e-12 * np.abs(mfit[ok]) + 64 * EPS * mag[ok]):
         ctx.disagree(meta, "fit", "fit", "fit column values")
-    scale = np.abs(obs["y"]) + np.abs(obs["mvals"]) + 1e-300
+    scale = np.abs(obs["y"]) + mag + 1e-300
     if np.any(np.abs(mres[ok] - obs["res"][ok]) > 64 * EPS * scale[ok]):
         ctx.disagree(meta, float(np.max(np.abs(mres[ok] - obs["res"][ok]))), "res",
                      "residual column beyond the rounding budget 64 eps (|y|+|model|)")
@@ -185,7 +200,7 @@ def run(ctx):
     if out is not None:
         for (obs, meta), o in zip(keep, out):
             compare(ctx, obs, o, meta)
-    ctx.extra["tolerances"] = {"fit": "rtol 1e-12", "residuals": "64 eps (|y|+|model|)", "chi_sqr": "rtol 1e-9 + sum(2|r| b + b^2), b = 64 eps (|y|+|model|)"}
+    ctx.extra["tolerances"] = {"fit": "rtol 1e-12", "residuals": "64 eps (|y|+|model|+2|baseline|)", "chi_sqr": "rtol 1e-9 + sum(2|r| b + b^2), b = 64 eps (|y|+|model|)"}
 
 
 def replay(ctx, path):
